@@ -62,7 +62,7 @@ def run_cert(ctx, keys_for_pid=None, replay_ok=True):
     if ctx.replay and replay_ok:
         d = json.load(open(ctx.replay))["replay"]
         one = dict(script=d["script"], state=d.get("state", {}), verify=[d["row"]] if "row" in d else [],
-                   pool=[d["pool"]] if "pool" in d else [], singles=[d["single"]] if "single" in d else [])
+                   pool=[dict(d["pool"], regossip=bool(d.get("regossip")))] if "pool" in d else [], singles=[d["single"]] if "single" in d else [])
         sf = ctx.path("replay.ndjson"); open(sf, "w").write(json.dumps(one) + "\n")
     else:
         traces = 12 if ctx.tier == "quick" else 120
